@@ -50,7 +50,7 @@ RULE = (
     "distinct = sha1(case); non-trivial = nested requests were observed (depth >= 3) or the substitution changed the result."
 )
 ASSUMPTIONS = ["substitution cases are compared only for dictionaries on which the un-substituted graph evaluates (keys of the substituted dataset are still computed by caching consumers)"]
-FLOORS = {"log_emitters_checked": (9, 9), "types_checked": (28, 28), "method_requests_matched": (106, 106), "graph_evaluations": (4000, 30000), "body_stack_checks": (1500, 20000),
+FLOORS = {"backend_lied_exists": (150, 1500), "log_emitters_checked": (9, 9), "types_checked": (28, 28), "method_requests_matched": (106, 106), "graph_evaluations": (4000, 30000), "body_stack_checks": (1500, 20000),
           "backend_calls_under_request": (8000, 100000), "option_type_validations": (20000, 100000), "substitutions_compared": (1500, 6000),
           "substitution_changed_result": (800, 3000), "implementation_calls_matched": (100000, 1000000)}
 COVER = {"substitution_inner_blocks": ["none", "cache.disabled", "logging.disabled", "mapping-form", "pair-form"]}
@@ -205,8 +205,10 @@ class StackCache(Cache):
         st = tap.stack()
         kinds = [k for k, _ in st]
         self.ctx.count("backend_calls_under_request")
-        if not any(k in ("cache_get", "cache_set", "cache_exists") for k in kinds):
-            self.problems.append(f"backend {method}() called outside any cache request (stack {kinds[-4:]})")
+        # a store is issued by a set request only; the read-back of a set request and an exists() built on get() are reads
+        allowed = {"set": ("cache_set",), "get": ("cache_get", "cache_set", "cache_exists"), "exists": ("cache_exists",)}[method]
+        if not kinds or kinds[-1] not in allowed:
+            self.problems.append(f"backend {method}() called without a cache {'/'.join(a[6:] for a in allowed)} request on top of the request stack (stack {kinds[-4:]})")
 
     def get(self, evaluatable, options):
         self._check("get")
@@ -221,7 +223,14 @@ class StackCache(Cache):
 
     def exists(self, evaluatable, options):
         self._check("exists")
-        return evaluatable.fingerprint(options) in self.store
+        self.n_exists = getattr(self, "n_exists", 0) + 1
+        present = evaluatable.fingerprint(options) in self.store
+        if not present and self.n_exists % 4 == 2:
+            # an unreliable answer now and then (the entry is reported but cannot be read back): the recovery path
+            # of the library must go through requests like every other store
+            self.ctx.count("backend_lied_exists")
+            return True
+        return present
 
 
 class StackLogHandler(logging.Handler):
